@@ -43,6 +43,9 @@ def gen_specs(run):
             dv([{"op": "scalar_add", "field": f, "idx": i, "hex": gen.hx(gen.rscalar(rng))}], f"{f}+rand")
             dv([{"op": "scalar_set", "field": f, "idx": i, "hex": gen.hx(0)}], f"{f}=0")
             dv([{"op": "scalar_set", "field": f, "idx": i, "hex": gen.hx(gen.rscalar(rng))}], f"{f}=rand")
+        for f, i in scal:
+            for kk in (1, 2, 7):
+                dv([{"op": "scalar_plus_l", "field": f, "idx": i, "k": kk}], f"{f}+{kk}*l (same residue, non-canonical bytes)")
         # every point
         pts = [("a", 0), ("a1", 0), ("b", 0)] + [("li", j) for j in range(k)] + [("ri", j) for j in range(k)]
         for f, i in pts:
